@@ -218,6 +218,13 @@ def check(run) -> None:
         bverd = judge(brecs, sfile, run, "host API, call placed behind a priming call in a block")
         report(run, cals, brecs, bverd)
     run.cov["shapes_behind_priming_call"] = len(brecs)
+    # 3c. the same shapes with blanks around the `=` of their keyword arguments (optional spacing must not change a binding)
+    sjobs = [(c, sh, "k" + rid[1:], 2) for (c, sh, rid) in jobs if rid in ok_alone and sh["kw"]]
+    srecs = B.records(sjobs, workers=8)
+    if srecs:
+        sverd = judge(srecs, sfile, run, "host API, keyword arguments spelled `name = value`")
+        report(run, cals, srecs, sverd)
+    run.cov["shapes_with_spaced_keywords"] = len(srecs)
     # vacuity guards: every failure reason and every action of the machine was exercised on the real signatures
     reasons = Counter(v["reason"] for v in verdicts.values() if not v["legal"])
     if set(reasons) != {"too-many-positionals", "duplicate", "unknown-keyword", "missing-required"}:
